@@ -307,7 +307,19 @@ def bounded(tier, seed, R):
             if want is None:
                 want = 0
             R.check('bounded/value_equals_grammar_value', same_value(got, want), dict(w, got=repr(got), want=repr(want)))
-    # literals denote themselves
+    # literals denote themselves: exhaustively over an alphabet of awkward characters up to a length, then in contexts
+    import itertools
+    alphabet = ['a', '"', '\\', '\n', '{', "'", '%']
+    for n in range(0, 4 if not thorough else 6):
+        for tup in itertools.product(alphabet, repeat=n):
+            chars = ''.join(tup)
+            f = '=' + text_literal(chars)
+            try:
+                got = evaluate(f)
+            except Exception as e:      # noqa
+                got = f'raised {type(e).__name__}: {e}'[:160]
+            R.check('bounded/text_literal_denotes_its_characters', got == chars or (chars == '' and got in ('', 0)),
+                    {'formula': f, 'characters': chars, 'got': repr(got), 'want': repr(chars)})
     for chars in TEXTS:
         lit = text_literal(chars)
         for ctx, expect in ((f'={lit}', chars), (f'={lit}&"|"', chars + '|'), (f'=LEN({lit})', len(chars)),
